@@ -105,9 +105,11 @@ Proof.
       destruct (run_actions lit fl v vo' [mkact pc false f] (d1, n1)) as [st'|st' e] eqn:Er; [|discriminate].
       inversion H; subst d'.
       destruct (actions_refine v vo' [mkact pc false f] (d1, n1) st' Hw1 Hok Er) as [Hp _].
-      econstructor; [|exact Hp]. constructor. apply erase_embeds.
+      econstructor; [|exact Hp]. constructor.
       unfold create_walk in Ew. inversion Ew; subst.
-      eapply walk_frame; [apply wf_docb_sound; exact Hwd| |eassumption].
+      eapply erase_embeds.
+      eapply (walk_frame_g _ _ _ _ _ _ _ _ _ _ _ (snd (snd (sv_start vo (init_state d)))));
+        [apply wf_docb_sound; exact Hwd| |apply N.le_refl|eassumption].
       intros o Ho. apply objs_self. exact Ho.
     + discriminate.
   - apply andb_true_iff in Hok. destruct Hok as [Hwd Hok].
